@@ -54,6 +54,7 @@ class Parsed:
         self.entries = []
         self.builtins = []      # (accessor, node, its type)
         self.errors = []
+        self.skipped = []       # entries the probe could not exercise: every operand choice gave a node that existed before the call
         self.late = []          # late re-observations (`recheck`): Call-like records with key, inst, result, obs
         self.complete = False
 
@@ -63,6 +64,9 @@ def parse_probe(text):
     cur = None
     for ln in text.splitlines():
         if not ln:
+            continue
+        if ln.startswith('# skipped '):
+            P.skipped.append(ln[len('# skipped '):])
             continue
         tag, _, rest = ln.partition(' ')
         if tag == 'K':
